@@ -89,6 +89,9 @@ def get_finder_for(search_sid, config=None):  # get finder by Sid and optional c
 
 #########################################################
 # Config for GetFromAll
+_default_getter = {}  # type: ignore
+
+
 def get_getter_for(sid, attribute=None, config=None):
     """
     Configuration used by GetFromAll, to define which Getter is used for a given Sid or Search Sid.
@@ -125,6 +128,11 @@ def get_getter_for(sid, attribute=None, config=None):
     if getter:
         return getter
 
+    # the default Getter is created once: GetFromAll groups the typed searches by Getter instance,
+    # and searches that share a Getter are read together (no Sid is returned twice).
+    if 'default' not in _default_getter:
+        _default_getter['default'] = GetFromPaths()
+
     getters_by_type = {
         'project': None,
         'asset': None,
@@ -137,7 +145,7 @@ def get_getter_for(sid, attribute=None, config=None):
         # 'shot__sequence': GetFromSG(),
         # 'shot__task': GetFromSG(),
         # 'asset__task': GetFromSG(),
-        'default': GetFromPaths()
+        'default': _default_getter['default']
     }
 
     if sid.type in getters_by_type:
